@@ -670,6 +670,17 @@ class SetGen(object):
         for m in order:
             rng.shuffle(groups[m])
         mod.imports = [(m, groups[m]) for m in order]
+        if 'split_imports' in self.f and mod.imports and rng.random() < 0.3:
+            m, syms = rng.choice(mod.imports)
+            if len(syms) > 1:
+                k = rng.randint(1, len(syms) - 1)
+                i = mod.imports.index((m, syms))
+                mod.imports[i] = (m, syms[:k])
+                mod.imports.insert(rng.randint(0, len(mod.imports)), (m, syms[k:]))
+                self.count('split_imports')
+        if 'module_oid' in self.f and rng.random() < 0.25:
+            mod.module_oid = Oid(('', 'iso'), [('l', 'org', 3), ('n', 6), ('n', rng.randint(1, 9))], (1, 3, 6, 1))
+            self.count('module_oid')
 
     # ------------------------------------------------------------------ views
     def texts(self, lay_factory=None):
